@@ -691,10 +691,13 @@ def run(only=None):
         "Explicit-state BFS over the real RRSDatagramProtocol: one transition = one datagram_received call (or one delivery between two "
         "real handlers); outputs parsed by the harness's own HSTRP/HDAP parser and compared with a reference model; every discovered "
         "state rebuilt from its path on fresh objects. Plus complete enumeration of all truncations and single-bit corruptions of "
-        "every alphabet datagram at depth 1 from 4 reachable states."
+        "every alphabet datagram at depth 1 from 4 reachable states. Schedules: the handler(s) with the periodic_maintenance() coroutine(s) as stock asyncio.Tasks on a "
+        "virtual event loop (mc/vloop.py) whose ready queue, timer heap and clock the explorer pops by hand - every order of datagram arrivals, loop callbacks and "
+        "timer expiries to the stated depth; states rebuilt by replaying the schedule on a fresh loop (a live coroutine cannot be copied)."
     )
     rep.assumptions = [
-        "datetime.now replaced by a constant clock; no real transport (recording DatagramTransport)",
+        "datetime.now replaced by a constant clock (schedule searches: by the virtual loop's clock); no real transport (recording DatagramTransport)",
+        "schedule searches: asyncio's stock BaseEventLoop / Task / sleep semantics (FIFO ready queue, timers by deadline); the maintenance CONNECT of the closed system is addressed to the peer",
         "a datagram with the connect (close) bit counts as 'a connect (close) seen' whether or not it also carries the ACK bit (CONNECT|ACK is how the side that opened the connection learns it is connected); plain ACKs leave the flag alone",
         "REJECT datagrams: the statement does not say whether they are acknowledged; only 'at most one answer, no exception' is required",
         "closed system: heartbeat echoes between two connected handlers are permitted by the statement and are counted, not re-delivered",
